@@ -352,7 +352,12 @@ func (p *Pool) passthrough() *sync.Pool {
 func (p *Pool) enter(w *kernel.World) {
 	if p.epoch != w.Epoch {
 		p.epoch = w.Epoch
-		p.free = p.free[:0]
+		// drop the previous world's objects for real (a truncated slice would keep
+		// them reachable through its backing array: buffers of megabytes pile up)
+		for i := range p.free {
+			p.free[i] = nil
+		}
+		p.free = nil
 		p.policy = w.T.Pick(5, 3, 1, 2)
 	}
 }
@@ -432,8 +437,19 @@ func (p *Pool) Put(x any) {
 		me = t.ID
 	}
 	p.enter(w)
+	if p.policy == poolFresh {
+		return // this run's pool never hands anything back (the GC always wins)
+	}
 	b := &poolBox{v: x, owner: me}
 	kernel.RaceReleaseMerge(unsafe.Pointer(b))
+	if len(p.free) >= 32 {
+		// bounded like a real pool under GC pressure: the oldest object goes
+		for j := 0; j < len(p.free)-1; j++ {
+			p.free[j] = p.free[j+1]
+		}
+		p.free[len(p.free)-1] = b
+		return
+	}
 	p.free = append(p.free, b)
 }
 
